@@ -13,6 +13,10 @@ pub const BUF_SIZES: &[usize] = &[0, 1, 5, 6, 64, 1000, 8192, 32768];
 pub const YIELDS: &[usize] = &[0, 1, 5, 6, 64, 1000, 8192, 32768, 1 << 20];
 
 pub fn gen_sizes(rng: &mut Rng, bs: usize, yt: usize, max_msgs: usize) -> Vec<usize> {
+    if small() {
+        let n = rng.urange(0, 3);
+        return (0..n).map(|_| *rng.pick(&[0usize, 1, 4, 5, 6, 17, 40])).collect();
+    }
     let n = match rng.below(10) {
         0 => 0,
         1 => 1,
@@ -80,7 +84,10 @@ fn make_msg(rng: &mut Rng, size: usize, i: usize) -> Msg {
 pub fn run(cfg: &RunCfg) -> Ctx {
     let mut all = Ctx::new();
     all.merge(par_cases(cfg, "roundtrip", cfg.n(2500, 16 * 12000), || (), |_, rng, ctx, _| roundtrip_case(rng, ctx, false)));
-    all.merge(par_cases(cfg, "allcuts", cfg.n(60, 1600), || (), |_, rng, ctx, _| roundtrip_case(rng, ctx, true)));
+    if !small() {
+        // exhaustive single/double cuts: hundreds of decoder runs per case, too slow to interpret
+        all.merge(par_cases(cfg, "allcuts", cfg.n(60, 1600), || (), |_, rng, ctx, _| roundtrip_case(rng, ctx, true)));
+    }
     for k in [
         "cut.inside_prefix",
         "cut.inside_payload",
@@ -99,7 +106,7 @@ pub fn run(cfg: &RunCfg) -> Ctx {
 }
 
 pub fn roundtrip_case(rng: &mut Rng, ctx: &mut Ctx, all_cuts: bool) {
-    let enc = *rng.pick(Enc::all());
+    let enc = forced_enc().unwrap_or(*rng.pick(Enc::all()));
     let role = if rng.bool() { Role::Server } else { Role::Client };
     let prost = rng.chance(1, 3);
     let bs = *rng.pick(BUF_SIZES);
@@ -224,7 +231,7 @@ pub fn roundtrip_case(rng: &mut Rng, ctx: &mut Ctx, all_cuts: bool) {
     }
 
     // ---- metamorphic: other schedules / yield thresholds give identical bytes
-    let k = if all_cuts { 1 } else { 3 };
+    let k = if all_cuts || small() { 1 } else { 3 };
     for _ in 0..k {
         let class2 = rng.below(4);
         let yt2 = *rng.pick(YIELDS);
